@@ -36,7 +36,7 @@ def run(ctx):
     except TM.Refuse as e:
         ctx.obligation("translate_machines", False, f"translator refused: {e}")
         tr_ok = False
-    ok, out = ctx.build(["proofs/TruncateMachine.vo", "proofs/PrefixMachine.vo", "proofs/CfgChart.vo", "proofs/BarHillelProofs.vo"]) if tr_ok else (False, "translator")
+    ok, out = ctx.build(["proofs/TruncateMachine.vo", "proofs/PrefixMachine.vo", "proofs/CfgChart.vo", "proofs/BarHillelProofs.vo", "proofs/IntersectStringProofs.vo"]) if tr_ok else (False, "translator")
     if ok:
         ctx.prove("props/C09.v")
     else:
